@@ -17,7 +17,10 @@ RULE = ("sign/keygen: 6 seed patterns x EVERY message length 0..140 (thorough 0.
         "bytes). Oracle, one direction as the property states: library accepts => S canonical AND A canonical, not small order AND R "
         "not small order AND 8(SB - R - hA) = 0 (big-integer predicate); every honest signature accepted; all three verify entry "
         "points must agree with each other. key conversion: pk_to_curve25519(pk) = scalarmult_base(sk_to_curve25519(sk)) = birational "
-        "map of the reference for all seeds; small-order and off-curve keys refused. Each variant is one distinct case.")
+        "map of the reference for all seeds; small-order and off-curve keys refused. Each variant is one distinct case. "
+        "scalar seam (sc25519_muladd / sc25519_reduce called directly, the only places where S, r and h are reduced): (h, a, r) triples built "
+        "backwards so that S = h*a + r hits every boundary combination of each adjacent 21-bit limb pair ({0,1,2^20,2^21-1} x {0,1,2^21-2,2^21-1}, "
+        "4 bases) for 48 (thorough 400) (h, a) pairs, a 13^3 product of boundary scalars, and 64-byte values T + kL for the same targets T.")
 
 META = {
     "engine": "E-shape", "level": "exploration",
@@ -214,6 +217,72 @@ def prepare(tier):
     pass
 
 
+# ---- seam driver: the scalar arithmetic of the signing path, S = (h*a + r) mod L and the 64-byte reductions --------------------------
+LIMB = 21
+def _limb_targets():
+    """results in [0, 2^252) whose 21-bit limbs (the radix of sc25519_*) sit on their boundaries: for every adjacent limb pair (i, i+1)
+    every combination of {0, 1, 2^20, 2^21-1} x {0, 1, 2^21-2, 2^21-1}, other limbs from three base values"""
+    bases = [int.from_bytes(pat("R1", 32, 900 + k), "little") % (1 << 252) for k in range(2)] + [0, (1 << 252) - 1]
+    out = []
+    for base in bases:
+        for i in range(12):
+            for vi in (0, 1, 1 << 20, (1 << 21) - 1):
+                for vj in (0, 1, (1 << 21) - 2, (1 << 21) - 1):
+                    r = base & ~(((1 << 42) - 1) << (LIMB * i)) & ((1 << 252) - 1)
+                    r |= vi << (LIMB * i)
+                    if i < 11: r |= vj << (LIMB * (i + 1))
+                    out.append(r & ((1 << 252) - 1))
+    return sorted(set(out))
+
+def _seam_cases(tier):
+    npairs = 48 if tier == "quick" else 400
+    A = [0, 1, 2, L - 1, L - 2, 1 << 251, (1 << 252) - 1, (L - 1) // 2] + [int.from_bytes(pat("R1", 32, 910 + k), "little") % L for k in range(npairs)]
+    B = [1 << 254, (1 << 255) - 8, (1 << 254) | 8] + [(int.from_bytes(pat("R2", 32, 940 + k), "little") & ((1 << 254) - 8)) | (1 << 254) for k in range(npairs)]
+    T = _limb_targets()
+    mul = []
+    for k in range(npairs):
+        a, b = A[(k * 7) % len(A)], B[(k * 5) % len(B)]
+        for r in T:
+            mul.append((a, b, (r - a * b) % L))          # (h, clamped secret scalar, nonce) with h*a + r == structured target (mod L)
+    S = [0, 1, 2, L - 1, L - 2, (1 << 252) - 1, 1 << 252, (1 << 255) - 8, (1 << 255) - 1, (1 << 256) - 1, ((1 << 21) - 1) << 126, 1 << 147, (1 << 126) - 1]
+    for a in S:
+        for b in S:
+            for c in S:
+                mul.append((a % L, b & ((1 << 255) - 1), c % L))
+    red = []
+    KS = [0, 1, 2, 3, (1 << 259) - 1, 1 << 259, (1 << 512) // L - 1] + [int.from_bytes(pat("R1", 33, 970 + k), "little") % ((1 << 512) // L - 1) for k in range(12 if tier == "quick" else 60)]
+    for r in T:
+        for k in KS:
+            x = r + k * L
+            if x < (1 << 512): red.append(x)
+    red += [(1 << 512) - 1, (1 << 512) - 2, 1 << 511, L << 259]
+    return mul, red
+
+def _seam_worker(args):
+    variant, tier = args
+    import subprocess
+    from vf import build
+    d = build.build(variant); exe = os.path.join(d, "h_c06sc")
+    build.link_harness(variant, exe, [os.path.join(common.VERIF, "harness", "c06_sc.c")])
+    mul, red = _seam_cases(tier)
+    inp = b"".join(b"M" + a.to_bytes(32, "little") + b.to_bytes(32, "little") + c.to_bytes(32, "little") for a, b, c in mul) + \
+          b"".join(b"R" + x.to_bytes(64, "little") for x in red)
+    o = subprocess.run([exe], input=inp, capture_output=True, timeout=600)
+    fails = []
+    if o.returncode != 0 or len(o.stdout) != 32 * (len(mul) + len(red)):
+        return variant, 0, [("sc25519-seam/%s/driver" % variant, "driver exited %d with %d output bytes" % (o.returncode, len(o.stdout)))]
+    for i, (a, b, c) in enumerate(mul):
+        got = int.from_bytes(o.stdout[32 * i:32 * i + 32], "little"); want = (a * b + c) % L
+        if got != want and len(fails) < 20:
+            fails.append(("sc25519_muladd/%s/a=%064x/b=%064x/c=%064x" % (variant, a, b, c), "S = (a*b+c) mod L: got %064x want %064x (difference %x)" % (got, want, got ^ want)))
+    for j, x in enumerate(red):
+        i = len(mul) + j
+        got = int.from_bytes(o.stdout[32 * i:32 * i + 32], "little")
+        if got != x % L and len(fails) < 40:
+            fails.append(("sc25519_reduce/%s/x=%0128x" % (variant, x), "got %064x want %064x" % (got, x % L)))
+    return variant, len(mul) + len(red), fails
+
+
 def main(tier):
     t0 = time.time()
     from vf import build
@@ -237,6 +306,11 @@ def main(tier):
             tasks.append((v, c, signref if k == 0 else {}, lens, bases[k:k + per], chunk_lens))
     outs = pylib.pool_map(_backend_worker, tasks, min(16, len(tasks)))
     res = common.Result(); total = 0; info = {}
+    seam_n = 0
+    for variant, n, fails in pylib.pool_map(_seam_worker, [(v, tier) for v, _ in BACKENDS], len(BACKENDS)):
+        seam_n += n; total += n
+        for k, d in fails:
+            res.fails.append((k, d, {"cmd": ["python3", "vf/check.py", "C06"], "env": {}}))
     for tag, n, fails, inf in outs:
         total += n
         for k, v in inf.items(): info[k] = info.get(k, 0) + v
@@ -247,7 +321,7 @@ def main(tier):
                    "R replaced by R+T4 with S re-derived so that 8(SB-R-hA)=0 holds: acceptance allowed only if the predicate holds",
                    "public key replaced by the non-canonical encoding of the order-4 point (y = p+... alias) -> must be rejected"]
     cov = {"evaluations": total, "distinct_nontrivial": total, "rule": RULE, "exhaustive": True,
-           "adversarial_variants": info.get("variants", 0),
+           "adversarial_variants": info.get("variants", 0), "scalar_seam_cases": seam_n,
            "accepted_forgeries_with_predicate_true(info)": info.get("accepted_nonhonest_predicate_true", 0),
            "backends": [b[0] for b in BACKENDS]}
     common.finish("C06", tier, "exploration", res, cov,
